@@ -75,6 +75,11 @@ type SockOp struct {
 	Addr   int  `json:"addr,omitempty"`   // bind: 0 wildcard, 1, 2 (local addresses of the socket's family)
 	Port   int  `json:"port,omitempty"`   // bind: 0 ephemeral, 1..2 = sockPorts
 	Mapped bool `json:"mapped,omitempty"` // dual-stack socket: use the IPv4-mapped form (bind: of the IPv4 local address; connect: of the IPv4 remote)
+	// NonLocal: bind to an address of the socket's family (or its IPv4-mapped
+	// form) that no interface has. The Bind fails, and a failed Bind must leave
+	// nothing reserved: "a released reservation becomes available again" covers
+	// the reservation the failing call made on its way.
+	NonLocal bool `json:"nonlocal,omitempty"`
 }
 
 type SockCase struct {
@@ -119,6 +124,7 @@ func genSock(rt *rapid.T) SockCase {
 				o.Port = nports
 			}
 			o.Mapped = rapid.IntRange(0, 3).Draw(rt, "mapped") == 3
+			o.NonLocal = rapid.IntRange(0, 6).Draw(rt, "nonlocal") == 1
 		case k <= 7:
 			o.K = skConnect
 			o.Mapped = rapid.IntRange(0, 2).Draw(rt, "mapped") == 2
@@ -304,6 +310,27 @@ func runSock(c SockCase) *evid.Failure {
 		switch o.K {
 		case skBind:
 			if s.state != 0 || o.Addr < 0 || o.Addr > 2 || o.Port < 0 || o.Port > 2 {
+				continue
+			}
+			if o.NonLocal {
+				addr := tcpip.Address("\x0a\x09\x09\x09")
+				if s.fam != famV4 {
+					addr = tcpip.Address("\xfd\x00\x00\x00\x00\x00\x00\x00\x00\x00\x00\x00\x00\x00\x09\x09")
+					if s.fam == famV6Dual && o.Mapped {
+						addr = tcpip.Address(mappedPrefix) + "\x0a\x09\x09\x09"
+						if o.Addr == 0 {
+							addr = tcpip.Address(mappedPrefix) + "\xc0\xa8\x63\x63"
+						}
+					}
+				}
+				if err := s.ep.Bind(tcpip.FullAddress{Addr: addr, Port: uint16(sockPorts[o.Port])}, nil); err == nil {
+					// not this property's business; the model no longer knows what the socket holds
+					evid.Label("sock_bind_nonlocal_succeeded")
+					s.unknown = append(s.unknown, resv{netV4 | netV6, s.tr, 0, sockPorts[o.Port]})
+					s.state = 1
+				} else {
+					evid.Label("sock_bind_nonlocal_failed")
+				}
 				continue
 			}
 			var r resv
